@@ -702,6 +702,16 @@ func c11RunHeld(c *c11Case, srv *c11Server, sp *tars.ServantProxy, log *c11Log) 
 			release()
 			return c11Canon(log)
 		}
+		early := c.Mode == "heldq" && c.Seq == 2
+		if early {
+			// the sender is released BEFORE any further call: the client is marked closed and its connection is still the
+			// current one; the request must not be written to it but wait in the failure queue for the next call's dial
+			relMu.Lock()
+			released = time.Now()
+			relMu.Unlock()
+			log.release <- struct{}{}
+			time.Sleep(20 * time.Millisecond)
+		}
 		if c.DelayUs > 0 {
 			time.Sleep(time.Duration(c.DelayUs) * time.Microsecond)
 		}
@@ -718,7 +728,11 @@ func c11RunHeld(c *c11Case, srv *c11Server, sp *tars.ServantProxy, log *c11Log) 
 				log.add(c11rawEvent{k: "reply", id: id, ms: ms})
 			}
 		}
-		release()
+		if early {
+			<-doneA
+		} else {
+			release()
+		}
 	}
 	time.Sleep(5 * time.Millisecond)
 	return c11Canon(log)
@@ -1139,6 +1153,8 @@ func c11Gen(tier string, rng *rand.Rand) []c11Case {
 			d = d/2 + rng.Intn(d)
 		}
 		cs = append(cs, c11Case{Mode: "heldq", Burst: 1 + r%3, Seq: 1, DelayUs: d, Rounds: 2 + rng.Intn(3)})
+		cs = append(cs, c11Case{Mode: "heldq", Burst: 1 + r%2, Seq: 2, DelayUs: d % 20000, Rounds: 2 + rng.Intn(2)}) // released before the next call
+
 	}
 	for r := 0; r < 4*reps; r++ {
 		d := []int{0, 1000, 50000}[r%3]
